@@ -105,6 +105,36 @@ def _choose_lengths(rnd, used, universe, knobs, feat, tag, maxlen=16):
     return dict(zip(syms, L))
 
 
+def _write_temp_full(bw, rnd, tused, knobs, feat):
+    tl = _choose_lengths(rnd, tused, range(19), Knobs(extra_syms=0 if len(tused) >= 2 else 1,
+                                                       skew=knobs.skew), feat, 'temp')
+    tn = max(tl) + 1
+    if knobs.temp_pad is not None:
+        tn = max(tn, min(31, knobs.temp_pad))
+    elif rnd.random() < 0.2:
+        tn = rnd.randrange(tn, 32)
+    bw.put(tn, 5)
+    tarr = [tl.get(i, 0) for i in range(tn)]
+    i = 0
+    while i < tn:
+        put_len(bw, tarr[i], feat)
+        i += 1
+        if i == 3:
+            z = 0
+            while z < 3 and (3 + z >= tn or tarr[3 + z] == 0):
+                z += 1
+            s = knobs.skip if (knobs.skip is not None and knobs.skip <= z) else rnd.randrange(z + 1)
+            bw.put(s, 2)
+            i += s
+            feat.add('skip%d' % s)
+            feat.add('temp-n%s' % ('=3' if tn == 3 else '>3'))
+    if tn < 3:
+        feat.add('temp-n<3')
+    if tn == 31:
+        feat.add('temp-n-max')
+    return canonical(tl)
+
+
 def write_block(bw, rnd, method, cmds, knobs, feat):
     OB, window, NC, lhark = METHODS[method]
     syms, offs, extras = [], [], []
@@ -132,9 +162,16 @@ def write_block(bw, rnd, method, cmds, knobs, feat):
     single = len(used) == 1 and (knobs.extra_syms in (None, 0)) and not knobs.force_multi_temp
     if single:
         # a temp table is present even when unused: single form with an arbitrary code
-        tv = knobs.temp_single if knobs.temp_single is not None else rnd.randrange(32)
-        bw.put(0, 5)
-        bw.put(tv, 5)
+        if knobs.temp_single is None and rnd.random() < 0.4:
+            # ... or a complete table in the long form that nothing refers to (any entry count, with its skip field)
+            k = rnd.choice([2, 3, 3, rnd.randrange(2, 8)])
+            hi = rnd.choice([3, 3, 4, 19])
+            _write_temp_full(bw, rnd, sorted(rnd.sample(range(hi), min(k, hi))), knobs, feat)
+            feat.add('temp-unused-long-form')
+        else:
+            tv = knobs.temp_single if knobs.temp_single is not None else rnd.randrange(32)
+            bw.put(0, 5)
+            bw.put(tv, 5)
         bw.mark('temp', t0)
         t1 = bw.total
         bw.put(0, 9)
@@ -195,33 +232,7 @@ def write_block(bw, rnd, method, cmds, knobs, feat):
             tcode = {tused[0]: (0, 0)}
             feat.add('temp-single')
         else:
-            tl = _choose_lengths(rnd, tused, range(19), Knobs(extra_syms=0 if len(tused) >= 2 else 1,
-                                                               skew=knobs.skew), feat, 'temp')
-            tn = max(tl) + 1
-            if knobs.temp_pad is not None:
-                tn = max(tn, min(31, knobs.temp_pad))
-            elif rnd.random() < 0.2:
-                tn = rnd.randrange(tn, 32)
-            bw.put(tn, 5)
-            tarr = [tl.get(i, 0) for i in range(tn)]
-            i = 0
-            while i < tn:
-                put_len(bw, tarr[i], feat)
-                i += 1
-                if i == 3:
-                    z = 0
-                    while z < 3 and (3 + z >= tn or tarr[3 + z] == 0):
-                        z += 1
-                    s = knobs.skip if (knobs.skip is not None and knobs.skip <= z) else rnd.randrange(z + 1)
-                    bw.put(s, 2)
-                    i += s
-                    feat.add('skip%d' % s)
-                    feat.add('temp-n%s' % ('=3' if tn == 3 else '>3'))
-            if tn < 3:
-                feat.add('temp-n<3')
-            if tn == 31:
-                feat.add('temp-n-max')
-            tcode = canonical(tl)
+            tcode = _write_temp_full(bw, rnd, tused, knobs, feat)
         bw.mark('temp', t0)
         t1 = bw.total
         bw.put(n, 9)
